@@ -687,6 +687,63 @@ pub fn run_history(ops: &[Value]) -> Outcome {
 }
 
 const OPS: [&str; 7] = ["add", "replace", "remove", "clear", "deploy", "eval", "restart"];
+
+/// Models of the enumerated short histories: identical keys (A1/A2), shared namespace only (E with B is
+/// not needed here: D shares A's name, E has B's namespace and A's name), one that does not build.
+const ENUM_MODELS: [&str; 6] = ["A1", "A2", "B", "D", "E", "F"];
+
+/// The operations of the enumerated part: 6 adds, 6 replaces, 36 removes (every namespace/name pairing),
+/// clear, deploy, 6 evaluations = 56.
+fn enum_ops() -> Vec<Value> {
+  let mut ops = vec![];
+  for m in ENUM_MODELS {
+    ops.push(json!({"op": "add", "m": m}));
+  }
+  for m in ENUM_MODELS {
+    ops.push(json!({"op": "replace", "m": m}));
+  }
+  for x in ENUM_MODELS {
+    for y in ENUM_MODELS {
+      ops.push(json!({"op": "remove", "ns": x, "name": y}));
+    }
+  }
+  ops.push(json!({"op": "clear"}));
+  ops.push(json!({"op": "deploy"}));
+  for m in ENUM_MODELS {
+    ops.push(json!({"op": "eval", "m": m, "inv": "d"}));
+  }
+  ops
+}
+
+/// Number of enumerated histories of a tier: all of length 1 and 2 (quick), 1..3 (thorough).
+fn enum_count(tier: Tier) -> u64 {
+  let n = enum_ops().len() as u64;
+  match tier {
+    Tier::Quick => n + n * n,
+    Tier::Thorough => n + n * n + n * n * n,
+  }
+}
+
+/// The `index`-th enumerated history (lengths in ascending order, lexicographic within a length).
+fn enum_history(index: u64) -> Vec<Value> {
+  let ops = enum_ops();
+  let n = ops.len() as u64;
+  let mut len = 1;
+  let mut first = 0;
+  let mut count = n;
+  while index >= first + count {
+    first += count;
+    count *= n;
+    len += 1;
+  }
+  let mut k = index - first;
+  let mut out = vec![Value::Null; len];
+  for pos in (0..len).rev() {
+    out[pos] = ops[(k % n) as usize].clone();
+    k /= n;
+  }
+  out
+}
 const RESTART_FAULTS: [&str; 6] = ["", "", "truncated", "empty", "nonutf8", "notdmn"];
 
 pub fn gen_op(rng: &mut Rng, models: &[&str], kinds: &[&str]) -> Value {
@@ -733,10 +790,11 @@ impl Sim for C17 {
     "exploration"
   }
   fn runs(&self, tier: Tier) -> u64 {
-    match tier {
-      Tier::Quick => 300_000,
-      Tier::Thorough => 4_000_000,
-    }
+    enum_count(tier)
+      + match tier {
+        Tier::Quick => 300_000,
+        Tier::Thorough => 4_000_000,
+      }
   }
   fn block(&self, tier: Tier) -> u64 {
     match tier {
@@ -747,7 +805,11 @@ impl Sim for C17 {
   fn child_setup(&self) {
     let _ = setup();
   }
-  fn gen_plan(&self, seed: u64, run: u64, _tier: Tier) -> Value {
+  fn gen_plan(&self, seed: u64, run: u64, tier: Tier) -> Value {
+    // the batch starts with ALL short histories over six representative models, then samples
+    if run < enum_count(tier) {
+      return json!({"ops": enum_history(run), "class": "enumerated"});
+    }
     let mut rng = Rng::new(derive(seed, "C17", run));
     // swarm: a subset of the alphabet and of the operation kinds per run
     let models: Vec<&str> = rng.subset(&ALPHA_KEYS, 2);
@@ -835,6 +897,9 @@ impl Sim for C17 {
   fn exec(&self, plan: &Value, _mode: &ExecMode) -> Outcome {
     let ops = parr(plan, "ops");
     let mut out = run_history(ops);
+    if pstr(plan, "class") == "enumerated" {
+      out.counters.inc("histories.enumerated");
+    }
     if ops.len() >= 2 {
       let mut h = Hasher::default();
       h.str(&serde_json::to_string(&plan["ops"]).unwrap_or_default());
@@ -866,7 +931,7 @@ impl Sim for C17 {
     out
   }
   fn rule_text(&self) -> String {
-    "each run = one history of 1..12 workspace operations (add, replace, remove(ns(x),name(y)) for all pairs x,y, clear, deploy, evaluate, restart from a directory with storage faults) over a per-run subset of a 10-model alphabet whose namespaces and names overlap pairwise; generated from VERIF_SEED by xoshiro256**; distinct = distinct operation sequences (hash of the plan), non-trivial = at least two operations".to_string()
+    "the batch starts with every history of length 1..2 (quick) / 1..3 (thorough) over 56 operations on six representative models (all namespace/name pairings of remove), then each run = one seeded history of 1..12 workspace operations (add, replace, remove(ns(x),name(y)) for all pairs x,y, clear, deploy, evaluate, restart from a directory with storage faults) over a per-run subset of a 10-model alphabet whose namespaces and names overlap pairwise; generated from VERIF_SEED by xoshiro256**; distinct = distinct operation sequences (hash of the plan), non-trivial = at least two operations".to_string()
   }
   fn assumptions(&self) -> Vec<String> {
     vec![
